@@ -19,9 +19,13 @@ struct SockClientThread : public Thread
 	}
 	void run()
 	{
+		ASL_VERIF_HOOK(31, _server, _client.handle());
 		_server->serve(_client);
+		ASL_VERIF_HOOK(32, _server, _client.handle());
 		_client.close();
+		ASL_VERIF_HOOK(33, _server, 0);
 		--_server->_numClients;
+		ASL_VERIF_HOOK(41, this, 0);
 		delete this;
 	}
 };
@@ -51,6 +55,7 @@ SocketServer::SocketServer()
 
 SocketServer::~SocketServer()
 {
+	ASL_VERIF_HOOK(39, this, 0);
 	if(_thread) {
 		_thread->kill();
 		delete _thread;
@@ -113,10 +118,14 @@ void SocketServer::startLoop()
 			for (int i = 0; i < n; i++)
 			{
 				Socket client = _sockets.activeAt(i).accept();
+				ASL_VERIF_HOOK(30, this, client.handle());
 				++_numClients;
 				if (_sequential) {
+					ASL_VERIF_HOOK(31, this, client.handle());
 					serve(client);
+					ASL_VERIF_HOOK(32, this, client.handle());
 					client.close();
+					ASL_VERIF_HOOK(33, this, 0);
 					--_numClients;
 				}
 				else
@@ -125,7 +134,9 @@ void SocketServer::startLoop()
 		}
 		if(_requestStop || n < 0)
 		{
+			ASL_VERIF_HOOK(34, this, 0);
 			_running = false;
+			ASL_VERIF_HOOK(35, this, 0);
 			break;
 		}
 		
@@ -147,14 +158,17 @@ void SocketServer::start(bool nonblocking)
 
 void SocketServer::stop(bool sync)
 {
+	ASL_VERIF_HOOK(36, this, sync);
 	_requestStop = true;
 	
 	if (sync)
 	{
 		do {
 			sleep(0.1);
+			ASL_VERIF_HOOK(37, this, 0);
 		} while (_running || _numClients > 0);
 	}
+	ASL_VERIF_HOOK(38, this, 0);
 }
 
 String SocketServer::socketError() const
